@@ -2753,10 +2753,11 @@ class Cond(Generic[X, R], GFI[X, R]):
         new_tr, w, discard = self.callee.update(tr.trs[0], x, *rest_args, **kwargs)
         new_tr_, w_, discard_ = self.callee_.update(tr.trs[1], x, *rest_args, **kwargs)
         # Merge discarded values
-        merged_discard, _ = self.callee.merge(discard, discard_)
+        merged_discard, _ = self.callee.merge(discard, discard_, tr.check)
+        new_cond_tr = CondTr(self, check, [new_tr, new_tr_])
         return (
-            CondTr(self, check, [new_tr, new_tr_]),
-            jnp.where(check, w, w_),
+            new_cond_tr,
+            tr.get_score() - new_cond_tr.get_score(),
             merged_discard,
         )
 
@@ -2777,7 +2778,7 @@ class Cond(Generic[X, R], GFI[X, R]):
         elif discard_ is None:
             merged_discard = discard
         else:
-            merged_discard, _ = self.callee.merge(discard, discard_)
+            merged_discard, _ = self.callee.merge(discard, discard_, tr.check)
         return (
             CondTr(self, check, [new_tr, new_tr_]),
             jnp.where(check, w, w_),
